@@ -22,12 +22,13 @@ func caseKey(kind string, c content, o op) string {
 	return kind + "/" + o.String() + "/" + c.String()
 }
 
-const maxFailures = 200000
+const maxFailures = 20000
 
 type failureSet struct {
 	mu      sync.Mutex
 	m       map[string]failure
 	dropped int64
+	onFull  func()
 }
 
 func newFailureSet() *failureSet { return &failureSet{m: map[string]failure{}} }
@@ -41,6 +42,9 @@ func (fs *failureSet) add(f failure) {
 	}
 	if len(fs.m) >= maxFailures {
 		fs.dropped++
+		if fs.onFull != nil {
+			fs.onFull()
+		}
 		return
 	}
 	fs.m[k] = f
